@@ -125,6 +125,14 @@ CLAIMS["C04"] = dict(
     technique="Verus contract on the extracted Board::status with callee contracts imported + Kani cross-check with the generator stubbed by its contract",
 )
 
+CLAIMS["C10"] = dict(
+    category="proof",
+    text="Every Game method (result, current_position, side_to_move, make_move, offer_draw, accept_draw, resign, declare_draw) is extracted from the real source on every run and verified by Verus for action logs of ANY length against an abstract semantics (start position + log): accepted iff open and legal, log grows by exactly the accepted action, identity once a result exists, result == rule-assigned result naming the right side, accept_draw iff pending offer rule; parity lemma (side to move == side of the current position) and finality lemma by induction over the log. Board is used through imported contracts over uninterpreted rule functions.",
+    design_ref="DESIGN.md §6 C10",
+    note=TRUST + "assumed (listed in evidence): contracts of Board::make_move_new/status/legal/side_to_move (discharged by C02/C04/C01/C03), 'a move flips the side' (C02), the iterator chain filter().count() of side_to_move (outlined, V5), can_declare_draw (C11), Vec length < usize::MAX.",
+    technique="Verus contracts with loop invariant and inductive lemmas on mechanically extracted Game methods (unbounded log length), callee contracts imported",
+)
+
 NOT_YET = {}
 
 
